@@ -291,7 +291,22 @@ AbiNodes == {SN("trait", "", f, <<d>>) : f \in {0, 1}, d \in TraitDefs}
             \cup {SN("uninit", "", 0, <<>>)}
 AbiSmall == {SN("trait", "", 1, <<SN("traitdef", "T", 3, <<SN("method", "f", 5, <<SPrim("u8"), SPrim("u32")>>)>>)>>),
              SN("fnclosure", "", 0, <<SN("traitdef", "T", 0, <<SN("method", "g", 1, <<SZero>>)>>)>>)}
-Universe == LeafQ \cup Depth1 \cup AbiNodes \cup {SN("boxed", "", 0, <<e>>) : e \in AbiSmall}
+\* beyond the exhaustive size bound: a sample of deep trees (every wrapper kind nested five or six levels, in several orders)
+WrapK(kd, e) ==
+    CASE kd = "vec" -> WithLay(SVector(e), "LengthCapacityData")
+      [] kd = "opt" -> SOption(e)
+      [] kd = "arr" -> SArray(e, 2)
+      [] kd = "box" -> SN("boxed", "", 0, <<e>>)
+      [] kd = "ref" -> SN("ref", "", 0, <<e>>)
+      [] kd = "str1" -> SNL("struct", "S", 0, <<Named(WithOff(e, 0), "f")>>, 8, 4, -1, "", FALSE)
+      [] kd = "str2" -> SNL("struct", "T", 0, <<Named(WithOff(SPrim("u8"), 0), "f"), Named(WithOff(e, 4), "g")>>, 16, 4, -1, "", FALSE)
+      [] kd = "enum" -> SNL("enum", "S", 1, <<SVariant("A", 0, <<>>), SVariant("B", 1, <<Named(WithOff(e, 1), "f")>>)>>, 8, 4, -1, "", TRUE)
+RECURSIVE Chain(_, _)
+Chain(ks, leaf) == IF ks = <<>> THEN leaf ELSE WrapK(Head(ks), Chain(Tail(ks), leaf))
+Chains == { <<"vec", "opt", "arr", "box", "str1", "enum">>, <<"enum", "str2", "vec", "vec", "opt">>, <<"str2", "str1", "enum", "arr", "ref", "vec">>,
+            <<"opt", "opt", "box", "enum", "str2">>, <<"arr", "arr", "vec", "str1", "str2", "enum">>, <<"box", "ref", "opt", "vec", "arr">> }
+BigTrees == {Chain(c, l) : c \in Chains, l \in {SPrim("u8"), WithLay(SPrim("string"), "LengthCapacityData"), SN("custom", "cu", 0, <<>>)}}
+Universe == LeafQ \cup Depth1 \cup AbiNodes \cup BigTrees \cup {SN("boxed", "", 0, <<e>>) : e \in AbiSmall}
             \cup (IF Tier = "thorough" THEN Depth2 \cup Enums(LeafS) ELSE Wrappers(SmallD1))
 
 (* ------------------------------------------------------------------ *)
